@@ -447,6 +447,18 @@ def run(prog: Program, chk: Check):
                                     covered = True
                     T.decide(covered, fkey(f, f"decode:{norm(sub)}"), where(f, sub), "decode of client bytes is inside a handler",
                              f"{f.qual}: reading `{norm(sub)}` decodes client-supplied bytes as ASCII outside any handler -> UnicodeDecodeError for a non-ASCII name")
+    # the handlers above protect the manager only if the decode they guard can actually fail: String.__get__ must decode
+    # strictly.  A lenient decode (errors="replace"/"ignore") lets a non-ASCII name through as text, and the first
+    # `msg.name = module.name` in a manager-built message then raises UnicodeEncodeError in code nobody guards
+    vmod = prog.module("pyrtma.validators")
+    sget = vmod.functions.get("String.__get__")
+    if sget is None:
+        raise AnalysisError("anchor vanished: validators.String.__get__")
+    decs = [c for c in calls_in(sget.node) if is_method_call(c, "decode")]
+    lenient = [c for c in decs if len(c.args) >= 2 or any(k.arg == "errors" and not (isinstance(k.value, ast.Constant) and k.value.value == "strict") for k in c.keywords)]
+    T.decide(bool(decs) and not lenient and all(c.args and isinstance(c.args[0], ast.Constant) and str(c.args[0].value).lower().replace("-", "") in ("ascii", "usascii") for c in decs),
+             fkey(sget, "strict-ascii-decode"), where(sget), "received string fields are decoded strictly as ASCII (the UnicodeDecodeError handlers of the manager are the sanitiser)",
+             "String.__get__ no longer decodes strictly as ASCII: a non-ASCII client name is accepted as text and re-encoding it into CLIENT_INFO / CLIENT_CLOSED raises UnicodeEncodeError outside any handler")
     if sinks < 8:
         raise AnalysisError(f"anchor vanished: expected >= 8 partial-primitive sinks in the uncaught region, found {sinks}")
 
